@@ -12,7 +12,7 @@ Proof. unfold clean. intros. rewrite forallb_app, H, H0. reflexivity. Qed.
 
 (* the number written on the k-th test line, if any, is k *)
 Definition num_ok (num : option str) (k : N) : Prop :=
-  match num with None => True | Some ds => digits_val ds = k /\ (length ds <= 4300)%nat end.
+  match num with None => True | Some ds => digits_val ds = k /\ too_long ds = false end.
 (* a plan carries no directive, or is the skip-all plan "1..0 # SKIP why" *)
 Definition plan_dir_ok (n : N) (dir : option (str * str)) : Prop :=
   match dir with None => True | Some (w, _) => n = 0 /\ dir_kind w = Some DSkip end.
@@ -36,11 +36,11 @@ Inductive wf (v13 : bool) : N -> option N -> list str -> Prop :=
     yaml_start l0 = Some ind -> Forall (yaml_body_line ind) body -> yaml_end lend = true ->
     wf v13 (k + 1) p r -> wf v13 k p (l :: (l0 :: body ++ [lend]) ++ r)
 | wf_plan_first l r ds dir :
-    line_class l = Some (LPlan ds dir) -> yaml_start l = None -> (length ds <= 4300)%nat ->
+    line_class l = Some (LPlan ds dir) -> yaml_start l = None -> too_long ds = false ->
     plan_dir_ok (digits_val ds) dir ->
     wf v13 0 (Some (digits_val ds)) r -> wf v13 0 None (l :: r)
 | wf_plan_last k l r ds dir :
-    line_class l = Some (LPlan ds dir) -> yaml_start l = None -> (length ds <= 4300)%nat ->
+    line_class l = Some (LPlan ds dir) -> yaml_start l = None -> too_long ds = false ->
     plan_dir_ok (digits_val ds) dir -> digits_val ds = k ->
     Forall silent r -> wf v13 k None (l :: r).
 
@@ -61,12 +61,6 @@ Record R (v13 : bool) (k : N) (p : option N) (s : state) : Prop := {
 Definition NoLate (s : state) : Prop := forall pl, cur_plan s = Some pl -> p_late pl = false.
 Lemma NoLate_ctr s s1 : ctr s1 = ctr s -> NoLate s -> NoLate s1.
 Proof. unfold ctr, NoLate. intros C H pl Hp. inversion C as [[C1 C2 C3 C4 C5 C6 C7]]. apply H. congruence. Qed.
-
-Lemma py_int_fwd ds : (length ds <= 4300)%nat -> py_int ds = Ok (digits_val ds).
-Proof.
-  intro H. unfold py_int, max_str_digits.
-  replace (Nat.leb (length ds) 4300) with true by (symmetry; apply Nat.leb_le; exact H). reflexivity.
-Qed.
 
 Lemma line_class_Some l c : line_class l = Some c ->
   (negb (nonempty (rstrip l)) || prefixb [35] (rstrip l)) = false /\ classify (rstrip l) = c.
@@ -133,9 +127,12 @@ Proof.
             | None => (s1, []) end) = (s1, [])).
   { destruct p as [n|]; [destruct G as [pl [G1 G2]]; rewrite G1, (NL1 pl G1); reflexivity|rewrite G; reflexivity]. }
   rewrite Hpre.
-  assert (Hnum : (match num with None => Ok (last_test s1 + 1) | Some ds => py_int ds end) = Ok (k + 1)).
-  { destruct num as [ds|]; [destruct Hn as [Hn1 Hn2]; rewrite (py_int_fwd _ Hn2), Hn1; reflexivity|rewrite B; reflexivity]. }
-  rewrite Hnum. cbn [bind]. rewrite (parse_test_spec _ _ _ _ V).
+  assert (Hnum : (match num with None => Ok (last_test s1 + 1)
+                  | Some ds => if too_long ds then Ok (last_test s1 + 1) else Ok (digits_val ds) end) = Ok (k + 1)).
+  { destruct num as [ds|]; [destruct Hn as [Hn1 Hn2]; rewrite Hn2, Hn1; reflexivity|rewrite B; reflexivity]. }
+  assert (Hbig : (if match num with Some ds => too_long ds | None => false end then [EError KBig] else []) = []).
+  { destruct num as [ds|]; [destruct Hn as [_ Hn2]; rewrite Hn2|]; reflexivity. }
+  rewrite Hnum, Hbig. cbn [bind]. rewrite (parse_test_spec _ _ _ _ V).
   assert (Hex : (match cur_plan (set_counts s1 (num_tests s1 + 1) (k + 1) (N.max (highest_test s1) (k + 1)) (add_seen (k + 1) (seen_tests s1))) with
                  | Some p0 => if p_num p0 <? k + 1 then [EError KExceeds] else []
                  | None => [] end) = []).
@@ -151,7 +148,7 @@ Proof.
 Qed.
 
 Lemma plan_step v13 k s l ds dir :
-  line_class l = Some (LPlan ds dir) -> yaml_start l = None -> (length ds <= 4300)%nat ->
+  line_class l = Some (LPlan ds dir) -> yaml_start l = None -> too_long ds = false ->
   plan_dir_ok (digits_val ds) dir -> R v13 k None s ->
   exists s' e pl, parse_line s l = Ok (s', e) /\ clean e /\ ctr s' = ctr (set_plan s (Some pl)) /\
                   version s' = version s /\ st s' <> Yaml /\
@@ -162,7 +159,7 @@ Proof.
   assert (R1 : R v13 k None s1) by (apply (R_ctr _ _ _ s); auto; congruence).
   destruct R1 as [A B C' D E F SN G]. simpl in G.
   apply line_class_Some in Hc. destruct Hc as [Hc1 Hc2].
-  unfold main_line. rewrite Hc1, Hc2, G, (py_int_fwd _ Hl). cbn [bind].
+  unfold main_line. rewrite Hc1, Hc2, G, Hl. cbn [bind].
   assert (Hdir : exists sk, (match dir with
             | Some (d, _) => if prefixb (s2l "SKIP") (upper d)
                              then (if 0 <? digits_val ds then [EError KPlanSkip] else [], true)
@@ -267,14 +264,14 @@ Qed.
 (* a well-formed TAP 13 stream: "TAP version 13" first, then as above, with YAML blocks allowed
    after test lines *)
 Theorem well_formed_clean_v13 v ds lines :
-  line_class v = Some (LVersion ds) -> yaml_start v = None -> (length ds <= 4300)%nat -> 13 <= digits_val ds ->
+  line_class v = Some (LVersion ds) -> yaml_start v = None -> too_long ds = false -> 13 <= digits_val ds ->
   wf true 0 None lines -> exists evs, parse (v :: lines) = Ok evs /\ clean evs.
 Proof.
   intros Hc Hy Hl Hv W.
   destruct (parse_line_main init v) as [s1 [C [Ve [S [L1 E1]]]]]; [discriminate|exact Hy|].
   apply line_class_Some in Hc. destruct Hc as [Hc1 Hc2].
   unfold main_line in E1. rewrite Hc1, Hc2 in E1. simpl lineno in L1. rewrite L1 in E1.
-  simpl negb in E1. cbv iota in E1. rewrite (py_int_fwd _ Hl) in E1. cbn [bind] in E1.
+  simpl negb in E1. cbv iota in E1. rewrite Hl in E1. cbn [bind] in E1.
   replace (digits_val ds <? 13) with false in E1 by (symmetry; apply N.ltb_ge; exact Hv).
   cbn [bind app] in E1.
   unfold ctr in C. simpl in C. inversion C as [[X1 X2 X3 X4 X5 X6 X7]].
